@@ -49,6 +49,7 @@ fn gen_strings(rng: &mut Rng, n: usize, alpha: &[char]) -> Vec<String> {
                   format!("[C{}]", c), format!("[CH{}]", c), format!("[C:{}]", c), format!("[{}C]", c), format!("[C+{}]", c), format!("[C@TB{}]", c), format!("C({}C)C", c), format!("C(C{})C", c)] { v.push(t) } }
     // a dot inside a branch after a long chain / after nested branches (the writer must still reach back over it); a number re-opened on the same atom
     for k in [3usize, 255, 256, 257, 300] { v.push(format!("{}(C.C)C", "C".repeat(k))); v.push(format!("{}(C(C.O)C)N", "C".repeat(k))) }
+    for t in ["[CH\u{b2}?]", "C[NH\u{663}?]", "[C@@H\u{ff12}", "[CH\u{b2}", "[C+\u{b2}?]", "[13\u{663}C?]", "C%1\u{b2}?"] { v.push(t.to_string()) }
     for t in ["C(C.O)N", "CC(C.[Na+])O", "C(C1.C1)C", "C(C(.O)C)N", "C(.C.C.C.C)C", "C(C.C.C)C"] { v.push(t.to_string()) }
     for n in ["1", "7", "%12", "%07"] { for t in ["C{n}(CC{n}){n}CC{n}", "C{n}(C(C)C{n}){n}CCC{n}", "C{n}(CC{n})(C){n}CC{n}", "CC{n}(CC{n})C{n}CC{n}", "C{n}(CC{n})C{n}(CC{n}){n}CC{n}", "C={n}(CC={n})#{n}CC#{n}",
         "*={n}%12", "C/{n}%10CC\\{n}CC%10", "C={n}%10%11CC%11CC%10C={n}", "C{n}={n}"] { v.push(t.replace("{n}", n)) } }
